@@ -152,8 +152,12 @@ def make(trees=TREES, reduced=False, preset_structure=False):
                 return {"nontrivial": False, "sample": {"case": D, "selected": []}}
             g.require(res.status == 0 and os.path.exists(arch), "archive:failed",
                       "status=%r error=%s err=%r; %s" % (res.status, res.error_class, res.err[-300:], D))
-            # ---- restore into a project that lacks those versions
-            r2 = hrun.invoke_argv(["restore", arch], str(B.root), fakeos.Kernel(fakeos.Sched()))
+            # ---- restore into a project that lacks those versions (it may be another git repository, which lacks the commits too)
+            other_repo = g.flag("destination_is_another_git_repository") if (not latest and not target) else False
+            if other_repo:
+                B.write("cond_config.toml", "")
+                D += " destination: another git repository"
+            r2 = hrun.invoke_argv(["restore", arch], str(B.root), fakeos.Kernel(OtherRepo() if other_repo else fakeos.Sched()))
             if isinstance(r2.status, str):
                 g.require(False, "restore:crash:" + r2.status[4:], "%s; %s" % (r2.exc, D))
             g.require(r2.status == 0, "restore:failed", "status=%r error=%s err=%r; %s" % (r2.status, r2.error_class, r2.err[-300:], D))
@@ -243,6 +247,19 @@ def scale_fn(g):
         B.cleanup()
         if os.path.exists(arch):
             os.unlink(arch)
+
+
+class OtherRepo(fakeos.Sched):
+    """git in a repository that has one commit of its own and none of the archive's."""
+
+    def git(self, kernel, argv, cwd):
+        if argv[:2] == ["rev-parse", "--git-dir"]:
+            return ".git\n", 0
+        if argv[0] == "rev-parse" and any(a.startswith("HEAD") for a in argv[1:]):
+            return "9" * 40 + "\n", 0
+        if argv[:2] == ["diff-index", "--quiet"]:
+            return "", 0
+        return "", 128          # unknown objects: cat-file -e, merge-base, rev-list ... fail
 
 
 def spaces(tier):
